@@ -18,7 +18,7 @@ CFG = {
             "direction, Rect/Triangle as Polygon, Line as LineString, singleton Multi*/collection, member order) and the concrete-type impls in both "
             "orders. Every 25th case is the regime-A probe C07.near: a point 0..3 ulps off a slanted segment at scales 1..1e6. Operands outside "
             "the domain (invalid by the exact Lean validity spec, or without any point) are SKIPped and counted. distinct by input text; "
-            "Point x Point cases are tagged triv.",
+            "Point x Point cases are tagged triv. 1 case in 20 (round 10): a diamond / kite with a central hole against partners in the corners of its bounding box, and the non-convex-hole plate against partners inside the hole.",
     "trusted_base": [
         "translator/rs2lean.py + rsexpr.py for the point-segment kernel (explicit choices: hypot = an abstract parameter constrained only by its square, "
         "abs = rabs, .into() on a Coord = identity, numbers exact)",
